@@ -260,6 +260,11 @@ func (c *Ctx) c01NameIndex() {
 		okFresh := false
 		if mapStore != nil {
 			_, okFresh = mapStore.Val.(*ssa.MakeMap)
+			// unconditional: executed on every path to the return (a map that is only
+			// allocated when nil keeps the former names)
+			if all, _ := mustBeforeReturn(fn, func(in ssa.Instruction) bool { return in == ssa.Instruction(mapStore) }); !all {
+				okFresh = false
+			}
 		}
 		okUpd := false
 		if upd != nil {
@@ -582,6 +587,58 @@ func (c *Ctx) c01Length() {
 		}
 	}
 	L.Floor("length-after-row-change", 5, "RemoveCharacterSites, RemoveMajorityCharacterSites, TrimSequences x2, Compress, Split, Concat x2")
+
+	// provenance of every value stored to align.length
+	L.Rule("length-provenance", "every value stored to align.length is the constant -1 (empty), the length of a row or of the sequence being added (len(...)), a count of columns kept in step with the rows by another rule of this check (site removal, TrimSequences, Compress, Split's per-column counter, Concat's verified row length) — never a number computed from the old length by other arithmetic")
+	verified := map[string]string{
+		"align.(*align).RemoveCharacterSites": "length-bookkeeping", "align.(*align).RemoveMajorityCharacterSites": "length-bookkeeping",
+		"align.(*align).TrimSequences": "same-value rule", "align.(*align).Compress": "same-value rule",
+		"align.(*align).Split": "per-column counter on the new alignment", "align.(*align).Concat": "row length verified by the closing loop",
+		"align.(*align).Concat$3": "row length verified by the closing loop", "align.seqBagToAlignment$1": "row length of the bag being converted",
+	}
+	for _, fn := range c.P.SrcFuncs("align") {
+		allInstrs(fn, func(in ssa.Instruction) {
+			st, ok := in.(*ssa.Store)
+			if !ok {
+				return
+			}
+			if t, f, fa := fieldAddrOf(st.Addr); fa == nil || t != "align" || f != "length" {
+				return
+			}
+			name := c.P.FuncName(fn)
+			pos := c.P.Pos(st.Pos())
+			kind := ""
+			okAll := true
+			for v := range throughPhis(st.Val, false) {
+				switch x := v.(type) {
+				case *ssa.Phi:
+				case *ssa.Const:
+					if k, ok := constInt(x); ok && k == -1 {
+						kind += "-1 "
+					} else {
+						okAll = false
+						kind += "constant " + x.String() + " "
+					}
+				case *ssa.Call:
+					if builtinName(x.Common()) == "len" {
+						kind += "len(…) "
+					} else {
+						okAll = false
+						kind += "call "
+					}
+				default:
+					okAll = false
+					kind += "computed "
+				}
+			}
+			if why, ok := verified[name]; ok && !okAll {
+				L.Trivial("length-provenance", name, "value stored to length", pos, "covered by: "+why)
+				return
+			}
+			L.Check(okAll, "length-provenance", name, "value stored to length", pos, "stores "+strings.TrimSpace(kind), "the cached length is set to a value that is neither -1 nor the length of an actual row ("+strings.TrimSpace(kind)+"): it can disagree with the rows")
+		})
+	}
+	L.Floor("length-provenance", 9, "stores to align.length")
 
 	// site removal: the length decreases by exactly the number of removed columns
 	L.Rule("rebuild-partition", "in the row rebuild loop every column index executes exactly one of {append the residue to the new row, increment the removed counter}")
